@@ -22,7 +22,7 @@ from fractions import Fraction
 
 from harness.lib.core import BUILD, REPO, Corr, blit, llit, olit, qlit
 from harness.props.C01 import read_facts
-from harness.props.C03 import accounting_oracle, cfg_from_params, crit_config, eq_keys, frame_ground_truth, keys_vs_spec, pf_config
+from harness.props.C03 import accounting_oracle, cfg_from_params, configs_vs_case, crit_config, eq_keys, frame_ground_truth, keys_vs_spec, pf_config
 from harness.props.C10 import EGO_POSES, NAMES, UUIDS, build_object, cfg_lit, ego_to_frame, label_id, obj_lit, object_facts
 
 os.environ.setdefault("TQDM_DISABLE", "1")
@@ -39,9 +39,10 @@ LABEL_POOL = ["car", "bus", "pedestrian", "bicycle", "motorbike", "truck"]
 # (3,4,5)/8-triangles hit the distance thresholds exactly
 OFFSETS = [(0.0, 0.0), (0.5, 0.0), (-0.5, 0.0), (0.0, 0.5), (1.0, 0.0), (0.0, -1.0), (0.375, 0.5), (0.75, 1.0), (1.5, 2.0),
            (2.0, 0.0), (0.0, 2.0), (0.25, 0.0), (3.0, 4.0), (1.5, 0.0), (0.625, 0.0), (-1.25, 0.0)]
-THR_CENTER = [0.5, 0.625, 1.0, 1.25, 1.5, 2.0, 2.5, 5.0]
-THR_PLANE = [0.5, 1.0, 1.0, 2.0, 3.0]
-RADII = [0.5, 1.0, 1.25, 2.0, 2.5, 5.0, 100.0]
+# every pool holds the falsy-but-valid 0: a threshold / radius of exactly 0 is a bound nothing is strictly better than, not "no bound"
+THR_CENTER = [0.5, 0.625, 1.0, 1.25, 1.5, 2.0, 2.5, 5.0, 0.0]
+THR_PLANE = [0.5, 1.0, 1.0, 2.0, 3.0, 0.0]
+RADII = [0.5, 1.0, 1.25, 2.0, 2.5, 5.0, 100.0, 0.0]
 YAW_Q = [[1.0, 0.0, 0.0, 0.0], [0.0, 0.0, 0.0, 1.0], [0.6, 0.0, 0.0, 0.8], [0.8, 0.0, 0.0, -0.6], [0.28, 0.0, 0.0, 0.96]]
 _MANAGERS = {}
 
@@ -184,7 +185,7 @@ def gen_case(rng, stream):
     small = stream == "boundary"
     ng = rng.choice([0, 1, 1, 2, 3]) if small else rng.randint(2, 8)
     ne = rng.choice([0, 1, 2, 3]) if small else rng.randint(2, 9)
-    conf_pool = [0.25, 0.5, 0.75] if rng.random() < 0.35 else [k / 64.0 for k in range(1, 65)]
+    conf_pool = [0.25, 0.5, 0.75] if rng.random() < 0.35 else [k / 64.0 for k in range(0, 65)]       # confidences of exactly 0 and 1 included
     gts, used = [], set()
     while len(gts) < ng:
         p = (float(rng.randint(-11, 11)), float(rng.randint(-5, 5)))
@@ -235,7 +236,7 @@ def gen_case(rng, stream):
     ev["center"] = [[rng.choice(THR_CENTER) for _ in targets] for _ in range(n_c)]
     ev["plane"] = None if rng.random() < 0.3 else [[rng.choice(THR_PLANE) for _ in targets]]
     if rng.random() < 0.15:
-        ev["conf"] = rng.choice([0.25, 0.5])
+        ev["conf"] = rng.choice([0.25, 0.5, 0.0])
     # critical filter: its targets usually contain the evaluator's (otherwise the metrics raise KeyError)
     ct = list(targets)
     rng.shuffle(ct)
@@ -263,7 +264,7 @@ def gen_case(rng, stream):
     pf = {"targets": rng.choice([ct, ct, targets, rng.sample(LABEL_POOL, rng.choice([1, 2, 3])), None])}
     n_pf = len(pf["targets"]) if pf["targets"] else 9           # None: every label of the family is a target
     pf["thresholds"] = None if rng.random() < 0.12 else [rng.choice(THR_PLANE) for _ in range(n_pf)]
-    return {"frame": frame, "ego": ego, "ests": ests, "gts": gts, "policy": rng.choice(POLICIES), "fpv": rng.random() < 0.1,
+    return {"frame": frame, "ego": ego, "ests": ests, "gts": gts, "policy": rng.choice(POLICIES), "fpv": rng.random() < 0.15,
             "eval": ev, "crit": crit, "pf": pf, "stream": stream}
 
 
@@ -385,10 +386,13 @@ class PipelineCorr(Corr):
         from perception_eval.evaluation.matching.objects_filter import filter_objects
         from perception_eval.evaluation.result.object_result import get_object_results
 
-        manager = manager_for(case)
-        ec = manager.evaluator_config
-        ests, gts, fgt = build_scene(case)
-        crit, pf = crit_config(ec, case["crit"]), pf_config(ec, case["pf"])
+        try:
+            manager = manager_for(case)
+            ec = manager.evaluator_config
+            ests, gts, fgt = build_scene(case)
+            crit, pf = crit_config(ec, case["crit"]), pf_config(ec, case["pf"])
+        except Exception as e:     # a (mutated) configuration class may reject a well-formed configuration: an observation
+            return {"error": "config", "error_text": f"building the evaluator / frame configurations raised {type(e).__name__}: {e}"[:300]}
         policy = MatchingLabelPolicy.from_str(case["policy"])
         # ---- PRE-matching facts: the objects the manager hands to the matcher (public filter, the manager's parameters)
         fe = filter_objects(list(ests), False, transforms=fgt.transforms, **ec.filtering_params)
@@ -460,6 +464,8 @@ class PipelineCorr(Corr):
 
     def coq_debug(self, case, obs):
         # beta-redexes instead of `let`: elaborating a tuple under `let`-bound literals of this size exhausts memory
+        if obs.get("error") == "config":
+            return None
         ests, gts, facts, tables, crit, pf, det = scene_terms(obs)
         pol, fpv = f"P_{case['policy']}", blit(case["fpv"])
         body = (f"(scene_ok F T ests gts, get_object_results CENTERDISTANCE {pol} {fpv} F, "
@@ -471,6 +477,8 @@ class PipelineCorr(Corr):
 
     # ---- the properties, stated on the implementation's outputs
     def oracle(self, case, obs):
+        if obs.get("error") == "config":
+            return f"{obs['error_text']} (evaluator {case['eval']}, critical filter {case['crit']}, pass/fail {case['pf']}: a well-formed configuration)"
         if "error" in obs:
             ct = obs["crit"]["targets"] or []
             crit_ids = {label_id(_enum(v)) for _, v in ct}
@@ -495,6 +503,27 @@ class PipelineCorr(Corr):
             if want != kept:
                 return (f"evaluator configured with {case['eval']}: the {who} handed to the matcher are {kept} but the configured criteria "
                         f"select {want}")
+        # the configuration OBJECTS hold what the case configured (everything below reads thresholds / criteria through those objects)
+        msg = configs_vs_case(case, obs)
+        if msg:
+            return msg
+        ev = case["eval"]
+        n_t = len(ev["targets"])
+        want_radii = None if ev.get("radii") is None else ([float(x) for x in ev["radii"]] if isinstance(ev["radii"], list) else [float(ev["radii"])] * n_t)
+        if obs["radii"] != want_radii:
+            return f"evaluator configured with max_matchable_radii = {ev.get('radii')} for {ev['targets']}: the matcher is given {obs['radii']}"
+        if not case["fpv"]:
+            for kind in ("center", "plane"):
+                want_lists = [[float(x) for x in l] for l in (ev.get(kind) or [])]
+                got_maps = obs["maps"][kind]
+                if [m["thr"] for m in got_maps] != want_lists:
+                    return (f"{kind}-distance thresholds {ev.get(kind)} are configured for {ev['targets']} but the frame's Maps of that mode use "
+                            f"{[m['thr'] for m in got_maps]}")
+                for mi, m in enumerate(got_maps):
+                    for li, (a, h) in enumerate(zip(m["aps"], m["aphs"])):
+                        if a["label"] != obs["det_targets"][li] or a["thr"] != want_lists[mi][li] or h["thr"] != a["thr"] or h["label"] != a["label"]:
+                            return (f"{kind} Map {mi}: the Ap / Aph at position {li} are for label {a['label']} / {h['label']} with threshold "
+                                    f"{a['thr']} / {h['thr']} but the configuration gives label {obs['det_targets'][li]} the threshold {want_lists[mi][li]}")
         gf = obs["gt_facts"]
         tp, fp, tn, fn, surv, crit_gts = obs["tp"], obs["fp"], obs["tn"], obs["fn"], obs["results"], obs["gts"]
         if any(e < 0 or (g is not None and g < 0) for e, g in tp + fp + surv + obs["matched"]) or any(g < 0 for g in tn + fn + crit_gts):
@@ -613,6 +642,15 @@ class PipelineCorr(Corr):
                 continue
             bump(d["frames"], c["frame"]); bump(d["policies"], c["policy"]); bump(d["streams"], c["stream"])
             d["fp_validation"] += bool(c["fpv"])
+            if c["fpv"]:
+                d["fp_validation_by_policy"] = d.get("fp_validation_by_policy", {})
+                bump(d["fp_validation_by_policy"], c["policy"])
+            zero = lambda v: v is not None and (0 in [x for l in v for x in (l if isinstance(l, list) else [l])] if isinstance(v, list) else v == 0)  # noqa: E731
+            for k in ("radii", "center", "plane", "conf"):
+                if zero(c["eval"].get(k)):
+                    d["evaluator_bound_exactly_0"] = d.get("evaluator_bound_exactly_0", {})
+                    bump(d["evaluator_bound_exactly_0"], k)
+            d["pass_fail_threshold_exactly_0"] = d.get("pass_fail_threshold_exactly_0", 0) + bool(c["pf"]["thresholds"] and 0 in c["pf"]["thresholds"])
             for k in ("max_dist", "min_pts", "ignore", "conf"):
                 if c["eval"].get(k) is not None:
                     bump(d["evaluator_filter"], k)
